@@ -179,15 +179,22 @@ func runR062(c *core.Ctx) {
 	// recordMissingRequiredFields skips excluded and prefixes scope
 	_, rm := mustDecl(c, rel, "(*missingFieldsTracker).recordMissingRequiredFields")
 	skip, prefix := false, false
+	rmpar := core.Parents(rm)
 	ast.Inspect(rm.Body, func(n ast.Node) bool {
 		switch x := n.(type) {
-		case *ast.IfStmt:
-			if call, ok := core.Unparen(x.Cond).(*ast.CallExpr); ok {
-				if cf := core.Callee(inf, call); cf != nil && cf.Name() == "IsKeyExcluded" {
-					for _, s := range x.Body.List {
-						if b, ok := s.(*ast.BranchStmt); ok && b.Tok == token.CONTINUE {
-							skip = true
+		case *ast.AssignStmt:
+			// the append to the missing-field list runs only when IsKeyExcluded(field) was false (continue, inverted guard …)
+			for _, l := range x.Lhs {
+				if sel, ok := core.Unparen(l).(*ast.SelectorExpr); ok && sel.Sel.Name == "missingFields" {
+					if core.GuardedByFact(inf, rmpar, x, func(f core.Fact) bool {
+						call, ok := core.Unparen(f.Expr).(*ast.CallExpr)
+						if !ok || f.Val {
+							return false
 						}
+						cf := core.Callee(inf, call)
+						return cf != nil && cf.Name() == "IsKeyExcluded"
+					}, nil) {
+						skip = true
 					}
 				}
 			}
